@@ -15,8 +15,9 @@ import (
 )
 
 type verifSocket struct {
-	in chan inEnvelope
-	mu sync.Mutex
+	in      chan inEnvelope
+	mu      sync.Mutex
+	results map[string]int // "result" envelopes written per id = finished mutations
 }
 
 func (s *verifSocket) ReadJSON(v interface{}) error {
@@ -27,7 +28,14 @@ func (s *verifSocket) ReadJSON(v interface{}) error {
 	*(v.(*inEnvelope)) = e
 	return nil
 }
-func (s *verifSocket) WriteJSON(v interface{}) error { return nil }
+func (s *verifSocket) WriteJSON(v interface{}) error {
+	if e, ok := v.(outEnvelope); ok && e.Type == "result" {
+		s.mu.Lock()
+		s.results[e.ID]++
+		s.mu.Unlock()
+	}
+	return nil
+}
 func (s *verifSocket) Close() error                   { return nil }
 
 type verifSubLogger struct {
@@ -67,7 +75,7 @@ func verifC17Run(msgs []string) (bool, string) {
 			Resolve: func(ctx context.Context, source, args interface{}, s *SelectionSet) (interface{}, error) { return 1, nil },
 			Type:    &Scalar{Type: "int"}, ParseArguments: noArgs}}},
 	}
-	sock := &verifSocket{in: make(chan inEnvelope)}
+	sock := &verifSocket{in: make(chan inEnvelope), results: map[string]int{}}
 	logger := &verifSubLogger{sub: map[string]int{}, unsub: map[string]int{}}
 	c := CreateConnection(context.Background(), sock, schema, WithSubscriptionLogger(logger), WithMinRerunInterval(time.Millisecond))
 	done := make(chan struct{})
@@ -94,9 +102,13 @@ func verifC17Run(msgs []string) (bool, string) {
 	after := atomic.LoadInt64(&runs)
 	logger.mu.Lock()
 	defer logger.mu.Unlock()
+	// thunder also logs one Unsubscribe when a mutation finishes (it shares the id table); the property speaks of
+	// Subscribe/Unsubscribe pairs, so those are discounted: one per "result" envelope written for the id.
+	sock.mu.Lock()
+	defer sock.mu.Unlock()
 	for id, n := range logger.sub {
-		if logger.unsub[id] != n {
-			return true, fmt.Sprintf("logger saw %d Subscribe but %d Unsubscribe for id %s", n, logger.unsub[id], id)
+		if logger.unsub[id]-sock.results[id] != n {
+			return true, fmt.Sprintf("logger saw %d Subscribe but %d Unsubscribe (%d of them for finished mutations) for id %s", n, logger.unsub[id], sock.results[id], id)
 		}
 	}
 	if after != before {
